@@ -26,6 +26,12 @@ CHECKS = {
    text="Each lifecycle operation (clone, drop, verify, report, no_verify_in_drop, move to thread, make_ref, verify on clone) is compared with the lifecycle automaton of Spec-M: silent / which panic / which ExitCode.", ref="5 C09", note=A_NOTE),
  "C14": dict(engine="dynmock", technique="runtime monitoring: clause trees through the real tuple impls (every arity 2..16 forced in turn), inconsistent setups injected at random positions",
    text="Pattern order and slot ranges after construction (hook H2) and the accepted call sequence must equal the depth-first leaf order; mixed-mode / empty-stub / unproducible-return setups must panic in the constructor.", ref="5 C14", note=A_NOTE + " The compile-time half (type-state) is sampled by the compile probe when present."),
+ "C10": dict(engine="sched", technique="runtime monitoring: controlled scheduler over instrumented atomics/locks (hook H3), linearizability checking of recorded histories against Spec-M, 16-thread stress with conservation laws, TSan/Miri in the thorough tier",
+   text="Every schedule of small cases (<= 4 calls, <= 3 threads) is enumerated depth-first, larger ones sampled (random, PCT); each history recorded at the client boundary must be linearizable w.r.t. Spec-M with matching final counters and verification text. Stress runs are judged by conservation (each chain position / ordered slot handed out exactly once).", ref="5 C10", note="Sequentially consistent interleavings at hook granularity only; Spec-M trusted as in engine A; scheduler in engines/harness/src/sched.rs."),
+ "C12": dict(engine="sched", technique="runtime monitoring: drop/clone registry on instrumented value types, conservation checks over controlled schedules (hook H3 lock sites) and 8-thread stress; Miri/TSan/valgrind in the thorough tier",
+   text="For 13 return shapes (plain, Option, and Deep Result/tuple/Option/Poll mixes with owned leaves) the registry must show: a single-use value reaches at most one caller under every enumerated/sampled schedule, every other request is refused by a mock panic, delivered values are alive, repeatable values are clones of the intact stored original, every constructed value is dropped exactly once.", ref="5 C12", note="The compile-time half (builder refuses to quantify non-Clone values) is sampled by the compile probe when present, not monitored at run time. Registry in engines/harness/src/toks.rs is trusted."),
+ "C13": dict(engine="sched", technique="runtime monitoring: every live lent reference re-validated (address, identity, checksum, distinctness, not dropped) after every step of random lending sequences; drop-order checks over the registry; controlled schedules at the value-chain insertion site, stress, Miri/TSan/valgrind in the thorough tier",
+   text="Random phases of make_ref / borrowed returns / delegation-helper lending / make_mut on an original and a clone, and 2-8 threads lending from one shared instance; all references are re-checked after each step and the registry must show values dropped exactly once and never before their owner (only make_mut releases).", ref="5 C13", note="unimock has no unsafe code; memory-level validity is sampled by Miri/valgrind in the thorough tier. Registry trusted."),
  "C18": dict(engine="dynmock", technique="runtime monitoring: metamorphic testing (run-against-run comparison of the real code, no model)",
    text="Four relations between runs of the real code: clause permutation, routing over clones/threads, a second independent mock with interleaved foreign calls, swapped generic instantiations. Any difference in a call outcome or the verification line multiset is a violation.", ref="5 C18", note="No specification involved; trusted: the transformation code in meta.rs. std build only (the documented no_std difference makes routing over clones observable there)."),
 }
@@ -62,6 +68,8 @@ def main():
             "add_only": True,
         },
         "engines": [
+            {"name": "sched", "path": "engines/harness/src/bin/sched.rs", "serves_properties": ["C10", "C12", "C13", "C08", "C02"],
+             "kind_free_text": "Engine C: token-passing controlled scheduler driven by hook H3, linearizability checker, real-thread stress, sanitizer stages"},
             {"name": "dynmock", "path": "engines/harness/src/bin/dynmock.rs", "serves_properties": ["C01","C02","C03","C04","C07","C08","C09","C14","C18"],
              "kind_free_text": "Engine A: random mocks interpreted through the real builder API, monitored against Spec-M after every operation"},
         ] + json.load(open(os.path.join(ROOT, "tools", "extra_engines.json"))) if os.path.exists(os.path.join(ROOT, "tools", "extra_engines.json")) else [],
